@@ -206,6 +206,13 @@ func (x *Exec) callByKey(callee *types.Func, recv *Val, args []Val, e *ast.CallE
 		if x.eng.pures[key] {
 			return []Val{x.pureCall(key, sig, recv, args)}
 		}
+		// a repo function without a contract (typically a helper extracted
+		// by a refactoring): execute its body in place, like an `inline`
+		// contract. Loops inside it have no invariants and stay unsupported.
+		if fi := x.eng.funcs[key]; fi != nil && fi.Decl != nil && fi.Decl.Body != nil {
+			x.notes = append(x.notes, x.key+": "+key+" has no contract and is executed in place")
+			return x.inlineFunc(fi, &FuncContract{Inline: true, Pkg: fi.Pkg.Types.Name()}, recv, args, e, st)
+		}
 		x.unsupported(e, "call to %s, which has no contract", key)
 	}
 	if !fc.Inline && !fc.Assume && fc.Model != "" && modelByName(fc.Model).Float != x.model.Float && x.usesFloat(sig) {
@@ -1105,6 +1112,17 @@ func (x *Exec) callEffects(e *ast.CallExpr, eff *loopEffects, unknown func(strin
 			case "make", "new":
 				eff.any = true
 			case "delete":
+				// delete(m, k): the presence and length heaps of m change
+				eff.any = true
+				if tv, ok := info.Types[e.Args[0]]; ok && tv.Type != nil {
+					if mt, isMap := tv.Type.Underlying().(*types.Map); isMap {
+						tag := sanitize(mt.String())
+						for _, pre := range []string{"MV_", "MP_", "ML_"} {
+							eff.targets = append(eff.targets, writeTarget{heap: pre + tag, expr: e.Args[0], mapType: mt})
+						}
+						return
+					}
+				}
 				unknown("delete")
 			}
 			return
